@@ -27,16 +27,69 @@ def main():
 
     if os.environ.get("LIAN_SIM_PINNED") != "1":
         # re-exec under a fully pinned environment (one integer decides everything)
-        core.scratch_root()
-        env = core.pinned_env()
+        import json
         import subprocess
+        import tempfile
+        core.scratch_root()
+        rc = 2
         try:
-            rc = subprocess.call([core.PYTHON, "-B", os.path.abspath(__file__)] + sys.argv[1:], env=env)
+            extra = {}
+            if args.replay:
+                # a replay file records the interpreter-level environment variant it was found under
+                try:
+                    extra = {k: str(v) for k, v in (json.load(open(args.replay)).get("env") or {}).items()}
+                    if extra:
+                        extra["VERIF_VARIANT_ENV"] = json.dumps(extra)
+                except Exception:  # noqa
+                    extra = {}
+            rc = subprocess.call([core.PYTHON, "-B", os.path.abspath(__file__)] + sys.argv[1:], env=core.pinned_env(extra))
+            if rc < 0 or rc > 2:
+                print(f"HARNESS-ERROR property={pid}: check process ended with status {rc}", file=sys.stderr)
+                rc = 2
+            # ---- environment variants: a smaller batch of the same check in an interpreter started differently
+            if not args.replay and not args.digests and not os.environ.get("VERIF_NO_VARIANTS"):
+                try:
+                    variants = getattr(core.load_engine(pid), "ENV_VARIANTS", [])
+                except Exception:  # noqa
+                    variants = []
+                summaries = []
+                for var in variants:
+                    evdir = tempfile.mkdtemp(prefix="variant-ev-", dir=core.scratch_root())
+                    venv = dict(var["env"])
+                    venv.update({"VERIF_VARIANT_ENV": json.dumps(var["env"]), "VERIF_VARIANT_NAME": var["name"],
+                                 "VERIF_RUNS": str(var["runs"].get(args.tier, 100)), "VERIF_EVIDENCE_DIR": evdir,
+                                 "VERIF_NO_SELFTEST": "1", "VERIF_BUDGET_S": str(var.get("budget_s", 300))})
+                    argv = [a for a in sys.argv[1:]]
+                    for flag in ("--runs", "--budget"):
+                        if flag in argv:
+                            i = argv.index(flag)
+                            del argv[i:i + 2]
+                    rc2 = subprocess.call([core.PYTHON, "-B", os.path.abspath(__file__)] + argv, env=core.pinned_env(venv))
+                    if rc2 < 0 or rc2 > 2:
+                        rc2 = 2
+                    summ = {"name": var["name"], "env": var["env"], "exit": rc2}
+                    try:
+                        ev = json.load(open(os.path.join(evdir, f"{pid}.json")))
+                        summ.update({"evaluations": ev["coverage"]["evaluations"], "violations": ev.get("violations", 0),
+                                     "wall_s": ev["wall_s"], "known_findings_hit": ev["coverage"].get("known_findings_hit", {})})
+                    except Exception:  # noqa
+                        pass
+                    summaries.append(summ)
+                    rc = 1 if 1 in (rc, rc2) else max(rc, rc2)
+                if summaries:
+                    evp = os.path.join(core.EVIDENCE_DIR, f"{pid}.json")
+                    try:
+                        ev = json.load(open(evp))
+                        ev["coverage"]["env_variants"] = summaries
+                        ev["violations"] = ev.get("violations", 0) + sum(x.get("violations", 0) for x in summaries)
+                        with open(evp + ".tmp", "w") as f:
+                            json.dump(ev, f, indent=1, sort_keys=True)
+                        os.replace(evp + ".tmp", evp)
+                    except Exception as e:  # noqa
+                        print(f"HARNESS-ERROR property={pid}: cannot merge variant evidence: {e!r}", file=sys.stderr)
+                        rc = rc or 2
         finally:
             core.cleanup_scratch()
-        if rc < 0 or rc > 2:
-            print(f"HARNESS-ERROR property={pid}: check process ended with status {rc}", file=sys.stderr)
-            rc = 2
         sys.exit(rc)
 
     seed = args.seed if args.seed is not None else int(os.environ.get("VERIF_SEED", "0") or 0)
